@@ -26,8 +26,8 @@ from saml2_tophat.extension import mdattr
 from saml2_tophat.server import Server
 
 CLAIM = {
-    "text": "Coq theorems (Props/C07.v) over the model of _filter_values/_match/filter_on_attributes/filter_attribute_value_assertions/post_entity_categories/Policy.get,filter,restrict/Assertion.apply_policy/Server.setup_assertion/_authn_response/create_attribute_response, for EVERY identity, compiled policy, SP declaration, regex matcher and attribute map (induction over the lists): whatever apply_policy leaves in the assertion has identity names and identity values only; when attribute_restrictions apply every released name (lower-cased) is one of their keys and every value matches one of its patterns; when the entity-category rules yield an allowance every released name is in it; otherwise, when required/optional declarations exist, every released name and value is covered by a declaration. create_attribute_response and setup_assertion(best_effort=False) satisfy this in every outcome. For create_authn_response the every-outcome statement is REFUTED on the unchanged code (C07_every_outcome_refuted, witness replayed on the implementation): MissingValue is swallowed under best_effort=True and the unfiltered identity is asserted; the partial theorem covers every run in which restrict does not raise MissingValue. The regenerated entity-category tables are proved equal (as sets) to the documented ones. Tie: function-level and end-to-end correspondence on long-lived Policy/Server objects with request sequences for different SPs.",
-    "note": "Trusted: Coq kernel + vm_compute; hand-written model tied to the code by the correspondence units; Python re and the attribute maps enter the model as per-case truth tables (quantified in the theorems); str.lower modelled for ASCII, generators use only names on which Python agrees; identities are dicts of lists of strings (a bare string value is outside the model); value multiplicity/order is not compared (list(set(..)) and list aliasing in filter_on_attributes make it unspecified); pefim and encrypt paths, name_form without converter (releases nothing) are not modelled.",
+    "text": "Coq theorems (Props/C07.v) over the model of _filter_values/_match/filter_on_attributes/filter_attribute_value_assertions/post_entity_categories/Policy.compile,get,filter,restrict/Assertion.apply_policy/Server.setup_assertion/_authn_response/create_attribute_response, for EVERY identity, compiled policy, SP declaration, regex matcher and attribute map (induction over the lists). C07_release_subset: whatever apply_policy leaves in the assertion has identity names and identity values only; when attribute_restrictions apply every released name (lower-cased) is one of their keys and every value matches one of its patterns; when the entity-category rules yield an allowance every released name is in it; otherwise, when required/optional declarations exist, every released name and value is covered by a declaration. C07_every_outcome (FULL, incl. the MissingValue/best_effort path): every outcome of create_authn_response is an exception or an assertion satisfying all four clauses; C07_setup_assertion_every_outcome the same for both values of best_effort (False: error response); C07_best_effort_is_policy_filtered / C07_authn_response_always_answers: on the MissingValue path the assertion is the identity narrowed by Policy.filter run with the SP's demands as wishes, never an error response, MissingValue never escapes; C07_attribute_response_every_outcome for the attribute authority with an aa policy. These are proved for the model of Server.setup_assertion AS REPAIRED by proposed_fix/C07-1.diff (the check expects /repo + that diff); the code before the repair is kept as setup_assertion_before_fix with C07_every_outcome_before_fix_refuted (witness: secret released despite attribute_restrictions, replayed on the implementation) and C07_before_fix_characterised. Entity-category clause, non-circular: C07_category_allowance_exact (post_entity_categories lets through exactly what a row entitles the SP to) and C07_category_allowance_documented / C07_every_outcome_documented_categories (for a policy compiled over the REGENERATED Gen/EntityCat.v every released name is entitled to by a row of the hand-written documented table of a module configured for this SP); C07_entity_category_tables: regenerated tables = documented ones (as sets). ONLY TESTED (not proved): that the model agrees with the Python - function-level and end-to-end correspondence on long-lived Policy/Server objects with request sequences for different SPs, plus an implementation-level release oracle.",
+    "note": "Trusted: Coq kernel + vm_compute; hand-written model tied to the code by the correspondence units; Python re and the attribute maps enter the model as per-case truth tables (quantified in the theorems); str.lower modelled for ASCII, generators use only names on which Python agrees; identities are dicts of lists of strings (a bare string value is outside the model); value multiplicity/order is not compared (list(set(..)) and list aliasing in filter_on_attributes make it unspecified); pefim and encrypt paths, name_form without converter (releases nothing), create_attribute_response without an aa policy (applies no policy object: observation, lemma C07_attribute_response_no_policy) are outside the claim.",
     "technique": "machine-checked proof (Coq, induction over identities/policies/declarations; regex matcher and attribute map universally quantified) + regenerated-table obligation + function-level and end-to-end sequence correspondence + implementation-level release oracle",
 }
 TRUSTED = [
@@ -902,11 +902,13 @@ def unit_worlds(ctx):
                 if isinstance(impl, Exn) or rel != {k: sorted(set(v)) for k, v in ident.items()}:
                     ctx.nontriv(("attr", w.aa_pol, view, ident))
             elif kind == "setup":
+                be = rng.random() < 0.35
+
                 def setup():
                     r = w.server.setup_assertion({"class_ref": PASSWORD, "authn_auth": "x"}, eid, "req-1", eid + "/acs",
                                                  saml.NameID(text="s", format=saml.NAMEID_FORMAT_PERSISTENT),
                                                  w.server.config.getattr("policy", "idp"), w.server._issuer(), None,
-                                                 copy.deepcopy(ident), False, False)
+                                                 copy.deepcopy(ident), be, False)
                     if isinstance(r, saml.Assertion):
                         out = {}
                         for st in r.attribute_statement:
@@ -917,11 +919,14 @@ def unit_worlds(ctx):
                     return r.status.status_code.value, None
                 got = call(setup)
                 impl, rel = outcome_val(got)
-                per["setup_assertion"].append(dict(id=len(per["setup_assertion"]), coq="(%s, false)" % w.pcase(eid, ident), impl=impl,
-                                                   show={"world": wi, "sp": eid, "identity": ident, "policy": w.pol, "sp_view": view}))
-                judge(ctx, "setup-assertion-no-best-effort", w, w.pol, eid, ident, rel,
-                      {"unit": "setup_assertion", "policy": w.pol, "sps": w.sps, "sp": eid, "identity": ident})
-                ctx.count("setup_assertion:" + (impl.name if isinstance(impl, Exn) else impl[0]))
+                per["setup_assertion"].append(dict(id=len(per["setup_assertion"]), coq="(%s, %s)" % (w.pcase(eid, ident), cbool(be)), impl=impl,
+                                                   show={"world": wi, "sp": eid, "identity": ident, "policy": w.pol, "sp_view": view,
+                                                         "best_effort": be}))
+                judge(ctx, "setup-assertion-best-effort" if be else "setup-assertion-no-best-effort", w, w.pol, eid, ident, rel,
+                      {"unit": "setup_assertion", "policy": w.pol, "sps": w.sps, "sp": eid, "identity": ident, "best_effort": be})
+                miss = missing_required(w.acs, w.pol, view, eid, ident)
+                ctx.count("setup_assertion(best_effort=%s):%s%s" % (be, impl.name if isinstance(impl, Exn) else impl[0],
+                                                                    ":required-missing" if miss else ""))
             elif kind == "restrict":
                 got = call(w.policy.restrict, copy.deepcopy(ident), eid, w.server.metadata)
                 impl = got if isinstance(got, Exn) else canon(got)
@@ -959,7 +964,8 @@ def unit_worlds(ctx):
 def witness_replay(ctx):
     """the Coq witness of C07_every_outcome_refuted, run on the implementation"""
     sps = [{"eid": "https://sp0.example.org/sp", "ecs": None,
-            "acs": [[{"name": "urn:oid:2.5.4.4", "name_format": URI, "friendly_name": "sn", "is_required": "true"}]]}]
+            "acs": [[{"name": "urn:oid:2.5.4.4", "name_format": URI, "friendly_name": "sn", "is_required": "true"},
+                     {"name": "urn:oid:2.5.4.42", "name_format": URI, "friendly_name": "givenName", "is_required": "false"}]]}]
     pol = {"default": {"attribute_restrictions": {"givenName": None, "sn": None}}}
     w = World(ctx.rng, 0, [], fixed=(sps, pol, None))
     ident = {"givenName": ["Anna"], "secret": ["s3cret"]}
